@@ -137,7 +137,7 @@ def run_proc(cmd, cwd, env, timeout):
         return -9, out, True, time.time() - t0
 
 
-def replay_once(binpath, tree, pkg, path, work, tag, known_ids, timeout=600, env_extra=None):
+def replay_once(binpath, tree, pkg, path, work, tag, known_ids, timeout=120, env_extra=None):
     rd = os.path.join(work, "run", "replay-" + tag)
     shutil.rmtree(rd, ignore_errors=True)
     os.makedirs(os.path.join(rd, "fail"))
@@ -430,7 +430,7 @@ def replay(path):
         if os.environ.get("VERIF_NO_KNOWN"):
             known = []
         rc, out, to = replay_once(binp, tree, pkg, path, work, "cli", known)
-        print(out[-6000:])
+        print(out if os.environ.get("VERIF_TRACE") else out[-6000:])
         if to:
             return 2
         if rc != 0:
